@@ -312,6 +312,18 @@ func (store *HStore) GC(bucketID, beginChunkID, endChunkID, noGCDays int, merge,
 		return
 	}
 
+	// check again and register the pass under the write lock, so that two
+	// concurrent requests for the same bucket cannot both start one; gc()
+	// replaces the placeholder with its own state
+	store.gcMgr.mu.Lock()
+	if _, exists := store.gcMgr.stat[bkt]; exists {
+		store.gcMgr.mu.Unlock()
+		err = fmt.Errorf("gc on bkt: %d already running", bucketID)
+		return
+	}
+	store.gcMgr.stat[bkt] = &GCState{Begin: begin, End: end, Src: begin, Dst: begin}
+	store.gcMgr.mu.Unlock()
+
 	go store.gcMgr.gc(bkt, begin, end, merge)
 	return
 }
